@@ -3,14 +3,17 @@ package props
 import (
 	"bytes"
 	"crypto/sha512"
+	"crypto/x509"
 	"encoding/binary"
 	"fmt"
 	"testing"
+	"time"
 
 	"github.com/google/go-eventlog/extract"
 	"github.com/google/go-tdx-guest/rtmr"
 	"github.com/google/go-tdx-guest/validate"
 	"github.com/google/go-tdx-guest/verify"
+	"pgregory.net/rapid"
 	"verifharness/gen"
 )
 
@@ -104,6 +107,34 @@ func ccelEventsEnd(log []byte) (int, error) {
 		off = o
 	}
 	return off, nil
+}
+
+type ccelEv struct {
+	off, end  int // the event's bytes in the log
+	idx, typ  uint32
+	digestOff int // offset of the 48-byte SHA-384 digest
+}
+
+// ccelEvents lists the TCG_PCR_EVENT2 events of a log that uses SHA-384 alone.
+func ccelEvents(log []byte) ([]ccelEv, error) {
+	end, err := ccelEventsEnd(log)
+	if err != nil {
+		return nil, err
+	}
+	off := 32 + int(binary.LittleEndian.Uint32(log[28:32]))
+	var out []ccelEv
+	for off < end {
+		e := ccelEv{off: off, idx: binary.LittleEndian.Uint32(log[off:]), typ: binary.LittleEndian.Uint32(log[off+4:])}
+		if binary.LittleEndian.Uint32(log[off+8:]) != 1 || binary.LittleEndian.Uint16(log[off+12:]) != 0x000C {
+			return nil, fmt.Errorf("event at %d does not carry exactly one SHA-384 digest", off)
+		}
+		e.digestOff = off + 14
+		es := int(binary.LittleEndian.Uint32(log[off+62:]))
+		e.end = off + 66 + es
+		out = append(out, e)
+		off = e.end
+	}
+	return out, nil
 }
 
 // ccelEvent encodes one TCG_PCR_EVENT2 with a single SHA-384 digest.
@@ -391,6 +422,97 @@ func TestC18(t *testing.T) {
 		}
 	})
 
+	// The log itself altered (the quote stays genuine and re-signed under our PKI): a digest bit changed, two events of
+	// one register exchanged, an event dropped, duplicated or moved to another register. Whatever the library makes
+	// of such a log, a state is returned ONLY IF an own replay of the very log that was given reproduces the quote's value
+	// of every register the log has events for.
+	gen.Prop(t, "altered-logs", gen.N(400, 30000), func(t *rapid.T) {
+		defer func() { logInUse = ccel }()
+		evs, err := ccelEvents(ccel)
+		if err != nil {
+			gen.HarnessError(t, "own event-log reader failed: %v", err)
+		}
+		s := gen.NewStream(rapid.Uint64().Draw(t, "content"), "c18log")
+		log2 := append([]byte{}, ccel...)
+		var measuredEvs []int
+		for i, e := range evs {
+			if e.typ != 3 && e.idx >= 1 && e.idx <= 4 {
+				measuredEvs = append(measuredEvs, i)
+			}
+		}
+		pick := func(label string) ccelEv {
+			return evs[measuredEvs[rapid.IntRange(0, len(measuredEvs)-1).Draw(t, label)]]
+		}
+		kind := rapid.SampledFrom([]string{"digest-bit", "digest-bit", "exchange-two-events-of-one-register", "drop-event", "duplicate-event", "move-to-another-register", "event-data-byte", "none"}).Draw(t, "alteration")
+		switch kind {
+		case "digest-bit":
+			e := pick("event")
+			log2[e.digestOff+rapid.IntRange(0, 47).Draw(t, "byte")] ^= 1 << uint(rapid.IntRange(0, 7).Draw(t, "bit"))
+		case "exchange-two-events-of-one-register":
+			a := pick("eventA")
+			var same []ccelEv
+			for _, i := range measuredEvs {
+				if evs[i].idx == a.idx && evs[i].off != a.off {
+					same = append(same, evs[i])
+				}
+			}
+			if len(same) > 0 {
+				b := same[rapid.IntRange(0, len(same)-1).Draw(t, "eventB")]
+				da, db := append([]byte{}, log2[a.digestOff:a.digestOff+48]...), append([]byte{}, log2[b.digestOff:b.digestOff+48]...)
+				copy(log2[a.digestOff:], db)
+				copy(log2[b.digestOff:], da)
+			}
+		case "drop-event":
+			e := pick("event")
+			log2 = append(append([]byte{}, log2[:e.off]...), log2[e.end:]...)
+		case "duplicate-event":
+			e := pick("event")
+			log2 = append(append(append([]byte{}, log2[:e.end]...), log2[e.off:e.end]...), log2[e.end:]...)
+		case "move-to-another-register":
+			e := pick("event")
+			binary.LittleEndian.PutUint32(log2[e.off:], 1+(e.idx+uint32(rapid.IntRange(0, 2).Draw(t, "by")))%4)
+		case "event-data-byte":
+			e := pick("event")
+			if e.end-(e.off+66) > 0 {
+				log2[e.off+66+s.Intn(e.end-(e.off+66))] ^= 0x01
+			}
+		}
+		regs2, err := ccelMeasured(log2)
+		if err != nil {
+			return // not a log our reader can replay: nothing to say
+		}
+		w := mkWorld(gen.Seed() + 77)
+		followLog := rapid.Bool().Draw(t, "quoteFollowsTheAlteredLog")
+		if followLog {
+			for idx := uint32(1); idx <= 4; idx++ {
+				if r, ok := regs2[idx]; ok {
+					w.Q.Rtmr[idx-1] = r
+				}
+			}
+		}
+		w.Build()
+		logInUse = log2
+		st, v := parse(w, w.Raw, nonce, nil, nil)
+		if v.Panicked() {
+			gen.Fail(t, gen.Violation{Key: "panic@" + gen.PanicSite(v.Stack), Oracle: "returns a state or an error", Detail: kind + ": " + v.Panic, Replay: map[string]any{"kind": "ccel", "class": "altered-log"}})
+			return
+		}
+		agrees := true
+		for idx, r := range regs2 {
+			if idx >= 1 && idx <= 4 && r != w.Q.Rtmr[idx-1] {
+				agrees = false
+			}
+		}
+		gen.Class(fmt.Sprintf("altered-log:%s,replay-agrees-with-quote=%v,state=%v", kind, agrees, st != nil))
+		if !agrees {
+			gen.NonTrivial("altered-log", kind, log2)
+			if st != nil || v.Accepted() {
+				gen.Fail(t, gen.Violation{Key: "state-despite:altered-log:" + kind, Oracle: "a firmware log state is returned only if replaying the log reproduces the quote's value of every RTMR the log has events for",
+					Detail: fmt.Sprintf("log altered by %s, quote follows the altered log=%v: an own replay of the given log does not reproduce the quote's RTMRs, yet state returned=%v error=%v", kind, followLog, st != nil, v.Err), Replay: map[string]any{"kind": "ccel", "class": "altered-log", "detail": kind}})
+			}
+		}
+	})
+
 	// a quote MESSAGE can carry values wider than the signed 16-bit fields: the verification gate must judge the signed value
 	gen.Direct(t, "message-wider-than-wire", func(t *testing.T) {
 		for i, d := range []uint32{1 << 16, 1 << 17, 5 << 16, 1 << 31} {
@@ -465,6 +587,42 @@ func TestC18(t *testing.T) {
 			st, v = parse(w, q.Encode(), nonce, nil, func(o *verify.Options) { o.CheckRevocations = true })
 			if !expectBlocked(t, "verification-fault:crl-without-collateral", "CheckRevocations without GetCollateral", st, v) {
 				return
+			}
+		}
+		// gate 1 with the genuine Intel-signed sample (nobody can re-sign it, but its trust anchor can be withheld): under
+		// the embedded root (TrustedRoots nil) a state is returned; under a pool that trusts NOTHING (non-nil, empty) or
+		// only our own roots, none is
+		{
+			refCcel := time.Date(2024, time.November, 1, 0, 0, 0, 0, time.UTC)
+			sm := sample.ToProto()
+			for _, tc := range []struct {
+				name  string
+				pool  *x509.CertPool
+				state bool
+			}{{"embedded-root", nil, true}, {"empty-pool", x509.NewCertPool(), false}, {"only-another-root", other.Pool(), false}, {"only-our-root", w.PKI.Pool(), false}} {
+				opts := rtmr.TdxDefaultOpts(nonce)
+				ts := verify.TimeSet{PckCertChain: refCcel, TcbInfo: refCcel, QeIdentity: refCcel, PckCrl: refCcel, RootCaCrl: refCcel}
+				opts.Verification = &verify.Options{Now: &ts, Getter: gen.FailGetter{}, TrustedRoots: tc.pool}
+				var st any
+				gen.Eval()
+				v := gen.Call(func() error {
+					s, err := rtmr.ParseCcelWithTdQuote(ccel, table, sm, &opts)
+					if s != nil {
+						st = s
+					}
+					return err
+				})
+				gen.NonTrivial("gate1-intel-sample", tc.name)
+				if tc.state {
+					if st == nil || !v.Accepted() {
+						gen.Fail(t, gen.Violation{Key: "control-blocked:intel-sample", Oracle: "control: the genuine sample under the embedded root gets a state", Detail: v.String(), Replay: map[string]any{"kind": "ccel", "class": "control"}})
+						return
+					}
+					continue
+				}
+				if !expectBlocked(t, "verification-fault:intel-sample-under-"+tc.name, "the genuine Intel sample quote, TrustedRoots = "+tc.name, st, v) {
+					return
+				}
 			}
 		}
 		// gate 1, field by field: one bit of each header / TD-body field of the genuine quote changed, nothing re-signed
@@ -640,6 +798,18 @@ func TestC18(t *testing.T) {
 				m[15]++
 				m[7]++
 				o.TdQuoteBodyOptions.MinimumTeeTcbSvn = m
+			}},
+			// two expectations on the same field, one met and one missed: both count
+			{"mr_td-pinned-wrong-while-the-allow-list-has-it", func(o *validate.Options) {
+				o.TdQuoteBodyOptions.MrTd = bit(q.MrTd[:])
+				o.TdQuoteBodyOptions.AnyMrTd = [][]byte{make([]byte, 48), append([]byte{}, q.MrTd[:]...)}
+			}},
+			{"mr_td-pinned-right-while-the-allow-list-lacks-it", func(o *validate.Options) {
+				o.TdQuoteBodyOptions.MrTd = append([]byte{}, q.MrTd[:]...)
+				o.TdQuoteBodyOptions.AnyMrTd = [][]byte{bit(q.MrTd[:]), make([]byte, 48)}
+			}},
+			{"rtmr-one-right-one-wrong", func(o *validate.Options) {
+				o.TdQuoteBodyOptions.Rtmrs = [][]byte{append([]byte{}, q.Rtmr[0][:]...), nil, nil, bit(q.Rtmr[3][:])}
 			}},
 			{"minimum_qe_svn", func(o *validate.Options) { o.HeaderOptions.MinimumQeSvn = binary.LittleEndian.Uint16(q.Word10[:]) + 1 }},
 			{"minimum_pce_svn", func(o *validate.Options) { o.HeaderOptions.MinimumPceSvn = binary.LittleEndian.Uint16(q.Word8[:]) + 1 }},
